@@ -138,10 +138,32 @@ def countOk (skip : Bool) (s : Schema) (kvs : List (String × J)) : Bool :=
   (match s.minProps with | some k => decide (k ≤ countedMembers skip s kvs) | none => true) &&
   (match s.maxProps with | some k => decide (countedMembers skip s kvs ≤ k) | none => true)
 
-/-- Validity.  `skip = true` applies the documented relaxation wherever it may apply: an explicit zero value of an
-    optional property is treated as if the property were absent, and so is the zero value of a required property that is
-    read-only or has a default (then the property counts as missing). -/
-def validG (skip : Bool) (d : Defs) : Nat → Schema → J → Bool
+/-- How the documented relaxation is applied.  `ref`: nowhere (the reference semantics).  `relaxed`: everywhere it may be.
+    The relaxation is a per-site affair in generated code (it depends on whether a member is a pointer), so a generated
+    validator may apply it at some sites and not at others: `any` takes, at every site, whichever reading accepts, `all`
+    whichever rejects — every admissible validator lies between the two. -/
+inductive Mode where
+  | ref | relaxed | any | all
+  deriving DecidableEq, Repr
+
+/-- a required read-only / defaulted member holding its zero value counts as missing -/
+def Mode.rq : Mode → Bool
+  | .relaxed => true | .all => true | _ => false
+/-- an optional member holding its zero value is not validated -/
+def Mode.pr : Mode → Bool
+  | .relaxed => true | .any => true | _ => false
+
+def countOkM (m : Mode) (s : Schema) (kvs : List (String × J)) : Bool :=
+  match m with
+  | .ref => countOk false s kvs
+  | .relaxed => countOk true s kvs
+  | .any => countOk false s kvs || countOk true s kvs
+  | .all => countOk false s kvs && countOk true s kvs
+
+/-- Validity under a reading of the documented relaxation: an explicit zero value of an optional property is treated as if
+    the property were absent, and so is the zero value of a required property that is read-only or has a default (then the
+    property counts as missing). -/
+def validG (skip : Mode) (d : Defs) : Nat → Schema → J → Bool
   | 0, _, _ => false
   | n+1, s, j =>
     if s.ref ≠ "" then
@@ -156,11 +178,14 @@ def validG (skip : Bool) (d : Defs) : Nat → Schema → J → Bool
       (match s.items with | some it => l.all (fun x => validG skip d n it x) | none => true)
     | .obj kvs =>
       localOk n s j && s.allOf.all (fun a => validG skip d n a j) &&
-      reqOk skip s kvs && propsOk skip (validG skip d n) s kvs && addlOk (validG skip d n) s kvs && countOk skip s kvs
+      reqOk skip.rq s kvs && propsOk skip.pr (validG skip d n) s kvs && addlOk (validG skip d n) s kvs && countOkM skip s kvs
     | _ => localOk n s j && s.allOf.all (fun a => validG skip d n a j)
 
-abbrev valid := validG false
-abbrev validSkip := validG true
+abbrev valid := validG .ref
+abbrev validSkip := validG .relaxed
+/-- accepted under SOME per-site choice of readings / under EVERY choice -/
+abbrev validAny := validG .any
+abbrev validAll := validG .all
 
 /-- no declared property of any object of the instance holds an explicit zero value (the only places where the two
     semantics may differ) -/
